@@ -1386,6 +1386,14 @@ def search_static_rules(drv, rng, budget):
  ("fn f(x: Nonce) -> Nonce { x } fn main() { }", True),
  ("fn f(x: TokenAmount1) -> TokenAmount1 { x } fn main() { }", True),
  ("fn f(x: Gejj) -> u8 { 1 } fn main() { }", False), ("fn f(x: Message6) -> u8 { 1 } fn main() { }", False),
+ # a binding of one match arm is not in scope in the other arm
+ ("fn main() { let e: Either<u8, u8> = Left(1); let r: u8 = match e { Left(a: u8) => a, Right(b: u8) => a, }; }", False),
+ ("fn main() { let e: Either<u8, u8> = Left(1); let r: u8 = match e { Left(a: u8) => a, Right(b: u8) => b, }; }", True),
+ ("fn main() { let o: Option<u8> = Some(1); let r: u8 = match o { None => 0, Some(v: u8) => v, }; }", True),
+ ("fn main() { let e: Either<u8, u16> = Left(1); let r: u16 = match e { Left(a: u8) => 7, Right(b: u16) => { let c: u8 = a; b }, }; }", False),
+ ("fn main() { let x: u16 = 9; let e: Either<u8, u16> = Left(1); let r: u16 = match e { Left(x: u8) => 7, Right(b: u16) => x, }; }", True),
+ ("fn main() { let x: u16 = 9; let e: Either<u8, u16> = Left(1); let r: u8 = match e { Left(x: u8) => x, Right(b: u16) => 3, }; let y: u16 = x; }", True),
+ ("fn main() { let e: Either<u8, u16> = Left(1); let r: u8 = match e { Left(x: u8) => x, Right(b: u16) => 3, }; let y: u8 = x; }", False),
  # witnesses only inside main, wherever main stands
  ("fn main() { } fn late() -> u8 { witness::A }", False),
  ("fn early() -> u8 { witness::A } fn main() { }", False),
